@@ -8,6 +8,32 @@ HERE = os.path.dirname(os.path.dirname(os.path.abspath(__file__)))
 TECH = "deterministic simulation with fault injection: "
 
 CHECKS = {
+    "C08": dict(
+        level="exploration",
+        text="Seeded search over interleavings of 1-4 producer threads calling Interpreter::receive with the stepping thread (blocking and non-blocking step), "
+             "spurious wake-ups, stalls and adversarial time advance; history oracles: exactly-once, per-sender order, real-time FIFO (linearizability of the queue "
+             "for uniquely named events), internal-before-external, no enabled eventless transition at an external dequeue, internal FIFO; lost wake-ups are kernel verdicts.",
+        ref="DESIGN.md 6/C08",
+        note="data races as such are invisible under a serialising scheduler; only schedule-visible consequences at synchronisation points are explored.",
+        technique=TECH + "seeded schedule search of producer tasks vs stepper over the real BasicEventQueue; FIFO-linearizability and macrostep-discipline oracles on the recorded history"),
+    "C10": dict(
+        level="exploration",
+        text="API plans (step/receive/cancel/reset/destroy) from one thread in any order including before the first step, from a controller thread at arbitrary "
+             "decision points of a running or blocked step(), destroy while stepping, reset concurrent with step, and a reset-vs-fresh differential; oracles: "
+             "life-cycle automaton over step() results, onexit handlers once in reverse document order at completion, cancel leads to FINISHED, teardown bounded "
+             "(kernel deadlock / stuck rule), reset == fresh, no crash.",
+        ref="DESIGN.md 6/C10",
+        note="purpose-built chart family (nested/parallel states, delayed sends, optional invoked child), both engines; libevent is the simevent model.",
+        technique=TECH + "seeded schedule and API-call-point search with life-cycle automaton, bounded-teardown (deadlock/stuck) detection and reset-vs-fresh differential"),
+    "C11": dict(
+        level="exploration",
+        text="Generated parent/child pairs (child finishing immediately / on a timer / on a parent event / never; parent leaving on done, timer, harness or child event, "
+             "exit-and-re-entry in one macrostep; #_parent, #_<invokeid>, autoforward, finalize) with parent stepper, child thread and both timer threads under the "
+             "seeded scheduler; oracles: invoke/uninvoke exactly once per entry/exit, done.invoke at most once and only after the child's final state, done eventually "
+             "at quiescence, silence after cancel, routing and order, finalize before matching, no deadlock/crash.",
+        ref="DESIGN.md 6/C11",
+        note="one invoke element per parent chart; invoker flags change only between simulator decision points; libevent is the simevent model.",
+        technique=TECH + "seeded schedule search over parent, child and timer tasks with invoke-protocol oracles on the recorded histories of both sessions"),
     "C09": dict(
         level="exploration",
         text="Seeded search over interleavings of the real timer thread (BasicDelayedEventQueue on a simulated libevent) with the interpreter thread, "
@@ -35,9 +61,6 @@ PENDING = {
     "C04": "not claimed yet: generated-C host under construction (DESIGN.md 6/C04)",
     "C06": "not claimed yet: spin-simulation differential under construction (DESIGN.md 6/C06)",
     "C07": "not claimed yet: fault-position enumeration under construction (DESIGN.md 6/C07)",
-    "C08": "not claimed yet: producer/stepper linearizability check under construction (DESIGN.md 6/C08)",
-    "C10": "not claimed yet: life-cycle check under construction (DESIGN.md 6/C10)",
-    "C11": "not claimed yet: invoke check under construction (DESIGN.md 6/C11)",
     "C13": "not claimed yet: monitor grammar under construction (DESIGN.md 6/C13)",
     "C14": "not claimed yet: snapshot/restore enumeration under construction (DESIGN.md 6/C14)",
     "C15": "not claimed yet: storage-crossing JSON fault check under construction (DESIGN.md 6/C15)",
@@ -79,7 +102,7 @@ def main():
                      "kind_free_text": "deterministic simulator: baton scheduler over real threads, simulated clock and libevent, seeded fault injection; Python drivers generate plans and check recorded histories"}],
         "checks": checks,
         "not_applicable": na,
-        "notes": "fix: commits in /repo: d833ddd8, 04b41e61, df8167ce (see known_findings.json 'fixed').",
+        "notes": "fix: commits in /repo are listed in known_findings.json under 'fixed'.",
     }
     with open(os.path.join(HERE, "MANIFEST.json"), "w") as f:
         json.dump(m, f, indent=1)
